@@ -38,6 +38,9 @@ import (
 	"github.com/ava-labs/hypersdk/state/metadata"
 	"github.com/ava-labs/hypersdk/state/tstate"
 	"github.com/ava-labs/hypersdk/verifharness/emit"
+
+	mactions "github.com/ava-labs/hypersdk/examples/morpheusvm/actions"
+	mstorage "github.com/ava-labs/hypersdk/examples/morpheusvm/storage"
 )
 
 // ---------------------------------------------------------------------------------- scenario
@@ -83,7 +86,15 @@ type TxIn struct {
 	AuthStart   int64           `json:"authStart"`
 	AuthEnd     int64           `json:"authEnd"`
 	Actions     []*ScriptAction `json:"actions"`
+	Transfers   []TransferIn    `json:"transfers"` // reference-VM scenarios: the actions are these transfers
 	Nonce       uint64          `json:"nonce"`
+}
+
+// TransferIn is one examples/morpheusvm Transfer action.
+type TransferIn struct {
+	To      int    `json:"to"` // account index (numSponsors = an account that is never a sponsor)
+	Value   uint64 `json:"value"`
+	MemoLen int    `json:"memoLen"`
 }
 
 type Scenario struct {
@@ -98,6 +109,7 @@ type Scenario struct {
 	RootOK     bool     `json:"rootOk"`
 	TooLate    bool     `json:"tooLate"` // block timestamp is set beyond now + FutureBound at run time
 	VWDup      bool     `json:"vwDup"`   // the validity window reports a duplicate
+	Morpheus   bool     `json:"morpheus"` // reference VM: morpheusvm balance handler + Transfer actions
 	FailKey    []byte   `json:"failKey"` // reading this key from the parent view returns an injected error (nil = none)
 	Txs        []TxIn   `json:"txs"`
 }
@@ -120,6 +132,20 @@ var dataKeys = [][]byte{
 }
 
 var bh = balance.NewPrefixBalanceHandler([]byte{0x0B})
+
+func (s *Scenario) handler() hchain.BalanceHandler {
+	if s.Morpheus {
+		return &mstorage.BalanceHandler{}
+	}
+	return bh
+}
+
+func (s *Scenario) balanceKey(i int) []byte {
+	if s.Morpheus {
+		return mstorage.BalanceKey(sponsorAddr(i))
+	}
+	return bh.BalanceKey(sponsorAddr(i))
+}
 
 func (r RulesIn) toRules() *genesis.Rules {
 	g := genesis.NewDefaultRules()
@@ -290,6 +316,7 @@ const (
 	subInsufficientBalance
 	subOther
 	subInjectedRead
+	subInvalidBalance
 )
 
 func classify(err error) (uint64, uint64, string) {
@@ -351,6 +378,8 @@ func classifyTxErr(err error) uint64 {
 		return subAuthNotActivated
 	case errors.Is(err, errInjectedRead):
 		return subInjectedRead
+	case errors.Is(err, mstorage.ErrInvalidBalance):
+		return subInvalidBalance
 	case errors.Is(err, balance.ErrInsufficientBalance):
 		return subInsufficientBalance
 	case strings.Contains(txt, "overflow"):
@@ -374,6 +403,12 @@ func classifyResultErr(b []byte) uint64 {
 		return 3
 	case strings.Contains(s, tstate.ErrAllocationDisabled.Error()):
 		return 4
+	case strings.Contains(s, mactions.ErrOutputValueZero.Error()):
+		return 5
+	case strings.Contains(s, mactions.ErrOutputMemoTooLarge.Error()):
+		return 6
+	case strings.Contains(s, mstorage.ErrInvalidBalance.Error()):
+		return 7
 	}
 	return 9
 }
@@ -418,7 +453,16 @@ func (s *Scenario) buildTxs() ([]*hchain.Transaction, error) {
 			chainID = ids.ID{0xBA, 0xD0}
 		}
 		actions := make([]hchain.Action, len(ti.Actions))
+		if s.Morpheus {
+			actions = make([]hchain.Action, len(ti.Transfers))
+			for j, tr := range ti.Transfers {
+				actions[j] = &mactions.Transfer{To: sponsorAddr(tr.To), Value: tr.Value, Memo: make([]byte, tr.MemoLen)}
+			}
+		}
 		for j, a := range ti.Actions {
+			if s.Morpheus {
+				break
+			}
 			a.Keys = make([]string, len(a.KeysB))
 			for x, kb := range a.KeysB {
 				a.Keys[x] = string(kb)
@@ -444,6 +488,18 @@ func (s *Scenario) buildTxs() ([]*hchain.Transaction, error) {
 }
 
 // universe of keys whose post-state is observed
+func (s *Scenario) universeKeys() [][]byte {
+	var ks [][]byte
+	if s.Morpheus {
+		for i := 0; i <= numSponsors; i++ {
+			ks = append(ks, s.balanceKey(i))
+		}
+		sort.Slice(ks, func(i, j int) bool { return string(ks[i]) < string(ks[j]) })
+		return ks
+	}
+	return universeKeys()
+}
+
 func universeKeys() [][]byte {
 	var ks [][]byte
 	ks = append(ks, dataKeys...)
@@ -501,7 +557,7 @@ func (s *Scenario) execute(cfg Config) (Output, error) {
 	conf.TransactionExecutionCores = cfg.Cores
 	conf.StateFetchConcurrency = cfg.Fetch
 	p := hchain.NewProcessor(trace.Noop, &logging.NoLog{}, &genesis.ImmutableRuleFactory{Rules: s.Rules.toRules()}, w,
-		chaintest.NewDummyTestAuthEngines(), metadata.NewDefaultManager(), bh, vw, metrics, conf)
+		chaintest.NewDummyTestAuthEngines(), metadata.NewDefaultManager(), s.handler(), vw, metrics, conf)
 
 	rv := &recView{View: db, failKey: s.FailKey}
 	type res struct {
@@ -535,7 +591,7 @@ func (s *Scenario) execute(cfg Config) (Output, error) {
 	}
 	out.Prices = [5]uint64(ob.ExecutionResults.UnitPrices)
 	out.Consumed = [5]uint64(ob.ExecutionResults.UnitsConsumed)
-	for _, k := range universeKeys() {
+	for _, k := range s.universeKeys() {
 		v, err := ob.View.GetValue(ctx, k)
 		switch {
 		case errors.Is(err, database.ErrNotFound):
@@ -899,13 +955,24 @@ func (a *ScriptAction) coq() string {
 
 func (s *Scenario) coqTx(i int, tx *hchain.Transaction) string {
 	t := s.Txs[i]
-	acts := make([]string, len(t.Actions))
-	for j, a := range t.Actions {
-		acts[j] = a.coq()
+	var acts []string
+	if s.Morpheus {
+		for _, tr := range t.Transfers {
+			from, to := s.balanceKey(t.Actor), s.balanceKey(tr.To)
+			decl := []string{emit.Pair(emit.Bytes(from), emit.N(uint64(state.Read|state.Write))), emit.Pair(emit.Bytes(to), emit.N(uint64(state.All)))}
+			if string(from) == string(to) {
+				decl = decl[1:] // Go map literal with equal keys: the later entry (All) wins
+			}
+			op := emit.App("OTransfer", emit.Bytes(from), emit.Bytes(to), emit.N(tr.Value), emit.Bool(tr.MemoLen <= mactions.MaxMemoSize))
+			acts = append(acts, emit.App("mkAction", emit.N(mactions.TransferComputeUnits), emit.List("list N * N", decl), emit.List("sop", []string{op}), emit.Z(-1), emit.Z(-1)))
+		}
+	} else {
+		for _, a := range t.Actions {
+			acts = append(acts, a.coq())
+		}
 	}
-	sp := sponsorAddr(t.Sponsor)
-	return emit.App("mkTx", emit.Z(t.Expiry), emit.Bool(t.ChainOK), emit.N(t.MaxFee), emit.Bytes(bh.BalanceKey(sp)), emit.Bool(t.AuthOK), emit.N(t.AuthCompute),
-		emit.Z(t.AuthStart), emit.Z(t.AuthEnd), emit.N(uint64(tx.Size())), emit.List("action", acts))
+	return emit.App("mkTx", emit.Z(t.Expiry), emit.Bool(t.ChainOK), emit.N(t.MaxFee), emit.Bytes(s.balanceKey(t.Sponsor)), emit.Bool(t.AuthOK), emit.N(t.AuthCompute),
+		emit.Z(t.AuthStart), emit.Z(t.AuthEnd), emit.N(uint64(tx.Size())), emit.Bool(s.Morpheus), emit.List("action", acts))
 }
 
 func (o Output) coq() string {
@@ -941,7 +1008,7 @@ func (s *Scenario) coq(txs []*hchain.Transaction, outs []Output) string {
 	for i, o := range outs {
 		oc[i] = o.coq()
 	}
-	uni := universeKeys()
+	uni := s.universeKeys()
 	return emit.App("mkCase",
 		emit.List("list N * list N", parent), emit.N(s.ParentH), emit.N(s.ParentTs), s.ParentFee.coq(), emit.Bool(s.NoHeight),
 		s.Rules.coq(), emit.Z(s.BlockTs), emit.N(s.BlockH), emit.Bool(s.RootOK), emit.Bool(s.TooLate), emit.Bool(s.VWDup), failKeyCoq(s.FailKey),
@@ -959,4 +1026,107 @@ func failKeyCoq(k []byte) string {
 func metaKeys() [][]byte {
 	mm := metadata.NewDefaultManager()
 	return [][]byte{hchain.HeightKey(mm.HeightPrefix()), hchain.TimestampKey(mm.TimestampPrefix()), hchain.FeeKey(mm.FeePrefix())}
+}
+
+// ---------------------------------------------------------------------------------- reference VM (C06)
+
+func genMorpheusScenario(r *rand.Rand) *Scenario {
+	s := genScenario(r, "C06base")
+	s.Morpheus = true
+	s.Parent = nil
+	s.Txs = nil
+	s.TooLate, s.NoHeight, s.VWDup, s.RootOK, s.FailKey = false, false, false, true, nil
+	s.BlockH = s.ParentH + 1
+	s.BlockTs = int64(s.ParentTs) + pick(r, []int64{100, 1000, 2000})
+	s.Rules.MaxActions = 16
+	s.Rules.MaxBlockUnits = [5]uint64{1_800_000, 2000, 2000, 2000, 2000}
+	for d := 0; d < 5; d++ {
+		s.ParentFee.Prices[d] = pick(r, []uint64{0, 1, 1, 100})
+	}
+	// genesis-like allocation: zero / absent / small / huge balances
+	bal := make([]uint64, numSponsors+1)
+	for i := 0; i < numSponsors; i++ {
+		switch r.Intn(8) {
+		case 0: // absent
+		case 1:
+			bal[i] = uint64(1 + r.Intn(50_000))
+		case 2:
+			bal[i] = ^uint64(0) - uint64(r.Intn(1000))
+		default:
+			bal[i] = uint64(1_000_000 + r.Intn(1_000_000_000))
+		}
+		if bal[i] > 0 {
+			s.Parent = append(s.Parent, KV{s.balanceKey(i), binary.BigEndian.AppendUint64(nil, bal[i])})
+		}
+	}
+	ntx := 1 + r.Intn(6)
+	for i := 0; i < ntx; i++ {
+		sp := r.Intn(numSponsors)
+		t := TxIn{ChainOK: true, MaxFee: ^uint64(0), Sponsor: sp, Actor: sp, AuthOK: true, AuthCompute: 1, AuthStart: -1, AuthEnd: -1, Nonce: uint64(i)}
+		t.Expiry = (s.BlockTs/1000+1)*1000 + 1000*int64(r.Intn(30))
+		na := pick(r, []int{1, 1, 2, 2, 3, 4, 8, 16})
+		for j := 0; j < na; j++ {
+			to := r.Intn(numSponsors + 1)
+			if r.Intn(4) == 0 {
+				to = sp // self transfer
+			}
+			var v uint64
+			switch r.Intn(10) {
+			case 0:
+				v = 0
+			case 1:
+				v = bal[sp] // (about) everything the account started with
+			case 2:
+				if bal[sp] > 100_000 {
+					v = bal[sp] - uint64(r.Intn(100_000)) // everything but roughly the fee
+				}
+			case 3:
+				v = ^uint64(0)
+			case 4:
+				v = ^uint64(0) - bal[to%len(bal)] + uint64(r.Intn(3)) // receiver overflow boundary
+			default:
+				v = uint64(1 + r.Intn(5000))
+			}
+			t.Transfers = append(t.Transfers, TransferIn{To: to, Value: v, MemoLen: pick(r, []int{0, 0, 5, 256})})
+		}
+		s.Txs = append(s.Txs, t)
+	}
+	return s
+}
+
+// exactPatterns rewrites the first transaction so that it empties and refills its sponsor's account
+// exactly (amounts = balance - fee), which needs the fee: it is learnt from a first execution.
+func (s *Scenario) exactPatterns(r *rand.Rand) {
+	if len(s.Txs) == 0 {
+		return
+	}
+	sp := s.Txs[0].Sponsor
+	var bal uint64
+	for _, kv := range s.Parent {
+		if string(kv.K) == string(s.balanceKey(sp)) {
+			bal = binary.BigEndian.Uint64(kv.V)
+		}
+	}
+	other := (sp + 1 + r.Intn(numSponsors)) % (numSponsors + 1)
+	if other == sp {
+		other = numSponsors
+	}
+	shapes := [][]TransferIn{
+		{{To: sp, Value: 1}, {To: other, Value: 1}},
+		{{To: other, Value: 1}, {To: sp, Value: 1}},
+		{{To: sp, Value: 1}, {To: sp, Value: 1}, {To: other, Value: 1}},
+		{{To: sp, Value: 1}, {To: other, Value: 1}, {To: other, Value: 1}},
+	}
+	s.Txs[0].Transfers = pick(r, shapes)
+	out, err := s.execute(configs[0])
+	if err != nil || out.ErrCls != 0 || len(out.Results) == 0 || bal <= out.Results[0].Fee {
+		return
+	}
+	all := bal - out.Results[0].Fee
+	for i := range s.Txs[0].Transfers {
+		s.Txs[0].Transfers[i].Value = all
+		if r.Intn(6) == 0 {
+			s.Txs[0].Transfers[i].Value = all - uint64(r.Intn(3))
+		}
+	}
 }
